@@ -2,12 +2,25 @@ HOOK_COMMITS = "8e41332bb1a39e82bb9c75399978524fbb9b003b 152cb16d1ae96dd1086424d
 
 ALL = ["C%02d" % i for i in range(1, 21)]
 
+NOTE = "Trusted: the reference token game (internal/refsem) as oracle for observed requests, the quiescence oracle (all goroutines carrying the case's pprof label blocked in two consecutive stop-the-world snapshots; workloads have no real timers), Go 1.26.8 traceback labels. Held on the executions observed; says nothing about schedules that did not occur."
+
 CHECKS = [
+ {"id": "C01",
+  "technique": "runtime monitoring: stepwise and storm drive of the real engine on generated programs, reference token game compared at every quiescent point (goroutine census), trace-grammar monitor",
+  "text": "Generated block-structured programs (every legal nesting pair + PRNG programs) x data assignments x answer orders executed on the real engine; requests, end events, error traces, variables and completion compared with a reference token game at every quiescent point; storm runs with perturbation hooks. Exploration only.",
+  "note": NOTE, "ref": "DESIGN.md 3/C01"},
+ {"id": "C02",
+  "technique": "runtime monitoring: enumerated start/wait histories on the real engine, waiter returns and cease-flow trace checked against the reference at quiescent points",
+  "text": "Full grid of start-event counts, shapes, start modes, waiter counts/attachment points/expired-wait histories and start-up hook delays; each executed and checked at every quiescent point (no true/cease before completion, every waiter released and exactly one cease-flow trace at completion).",
+  "note": NOTE, "ref": "DESIGN.md 3/C02"},
  {"id": "C03",
   "technique": "runtime monitoring: stepwise drive of the real engine + reference token game compared at every quiescent point (goroutine census), token conservation over the trace log",
-  "text": "Exhaustive enumeration of all N,M in 1..4, all N! upstream finishing orders and 1..3 activations, each executed on the real engine and compared with a reference token game at every quiescent point; plus perturbed concurrent (storm) runs. Held on the executions observed; says nothing about schedules that did not occur.",
-  "note": "Trusted: the reference token game (internal/refsem), the quiescence oracle (all labelled goroutines blocked in two consecutive stop-the-world snapshots; workloads have no timers), Go 1.26.8 traceback labels.",
-  "ref": "DESIGN.md 3/C03"},
+  "text": "Exhaustive enumeration of all N,M in 1..4, all N! upstream finishing orders and 1..3 activations, each executed on the real engine and compared with a reference token game at every quiescent point; plus perturbed concurrent (storm) runs.",
+  "note": NOTE, "ref": "DESIGN.md 3/C03"},
+ {"id": "C04",
+  "technique": "runtime monitoring: exhaustive input grid executed on the real engine, closed-form oracle over observed requests / flow traces / error traces at quiescent points",
+  "text": "Exhaustive grid (k, default position, truth assignment, 1..3 concurrent tokens, expression language / data source) executed on the real engine; branch requested, flow-trace count and error trace compared with the closed-form rule; storm variants perturb the probe hand-shake.",
+  "note": NOTE, "ref": "DESIGN.md 3/C04"},
 ]
 
 _claimed = {c["id"] for c in CHECKS}
